@@ -41,12 +41,11 @@ class Sort(Harness):
     prop = "C03"
     opname = "df_sort"
     goals = ["data_frame.py:DataFrame.sort"]
-    def __init__(self, kinds, maxn, prep=None):
-        self.kinds = kinds; self.maxn = maxn; self.prep = prep
-        self.name = f"C03.sort.{'+'.join(kinds)}{'.after_' + prep if prep else ''}.n{maxn}"
+    def __init__(self, kinds, maxn):
+        self.kinds = kinds; self.maxn = maxn
+        self.name = f"C03.sort.{'+'.join(kinds)}.n{maxn}"
         self.bounds = {"rows": f"0..{maxn}", "key dtypes": [KIND_DTYPE[k] for k in kinds], "directions": "all of {1,-1}^k",
-                       "payload": "1 float64 column + row id",
-                       "receiver": "result of an earlier operation (its columns own their memory)" if prep else "freshly constructed (its columns are views of the arrays given)"}
+                       "payload": "1 float64 column + row id"}
         self.symbolic = ["all key and payload cells"]
         self.choice_dims = ["nrow", "direction per key"]
     def build(self, ctx):
@@ -59,9 +58,7 @@ class Sort(Harness):
             by.append([name, choice(f"dir{j}", [1, -1])])
         cols["y"] = mk_col("f", n, "y")
         cols["rid"] = rid_col(n)
-        inp = {"data": Frame(cols), "by": by}
-        if self.prep: inp["prep"] = self.prep
-        return inp
+        return {"data": Frame(cols), "by": by}
     def regions(self, inp):
         regs = {}
         data = inp["data"]
